@@ -490,3 +490,19 @@ func baseHeaders() [][]byte {
 	}
 	return out
 }
+
+// HostileInputs returns TLC-generated header texts (every reject edge of the header grammar) for C14.
+func HostileInputs(run *vk.Run) [][]byte {
+	res := run.TLC("header-grammar", vk.TLCOpts{Module: "HeaderGen", Config: genCfg("classes", 2, 1, "{0, 47}", `{"st0","st2"}`, run.Seed, 0, "CanonicalAndEmit"), Workers: 16})
+	if res.Violated != "" || !res.OK {
+		vk.Infra("HeaderGen: %s\n%s", res.Violated, res.Output)
+	}
+	var out [][]byte
+	for _, l := range res.PrintsWithPrefix("CASE ") {
+		var c hcase
+		if json.Unmarshal([]byte(l), &c) == nil {
+			out = append(out, vk.Bytes(c.Input))
+		}
+	}
+	return out
+}
